@@ -957,6 +957,8 @@ func (t *Tree) Compile(file string, args []string, out io.Writer) (err error) {
 		_print("\n   goto l%d", n)
 		labels[n] = true
 	}
+	// the rule is echoed inside a block comment: Go code quoted there must not end it
+	inComment := func(code string) string { return strings.ReplaceAll(code, "*/", "*\\/") }
 	printRule = func(n *node) {
 		switch n.GetType() {
 		case TypeRule:
@@ -978,11 +980,11 @@ func (t *Tree) Compile(file string, args []string, out io.Writer) (err error) {
 			upper := element
 			_print("[%v-%v]", escape(lower.String()), escape(upper.String()))
 		case TypePredicate:
-			_print("&{%v}", n)
+			_print("&{%v}", inComment(n.String()))
 		case TypeStateChange:
-			_print("!{%v}", n)
+			_print("!{%v}", inComment(n.String()))
 		case TypeAction:
-			_print("{%v}", n)
+			_print("{%v}", inComment(n.String()))
 		case TypeCommit:
 			_print("commit")
 		case TypeAlternate:
